@@ -17,6 +17,16 @@ declarations whose initialisers only allocate (`AllocPureEs`: `local t = {}`, `l
 * `Visitor.visit_v` / `runDefault_v` / `runScoped_v` — then the visited program has the same observable
   outcome, for EVERY program and every flat oracle.
 * `Sem.HeapV.renumbering_invariance` (`Heap/General.lean`) — the semantics is invariant under renumbering.
+* **Frontiers and pins** (`Inj.cL … fR`, `Inj.pinF`): an extension of the injections only adds pairs at or
+  beyond the frontier (`Inj.le.fresh…`, `protectedFL` …), and a closure the LEFT allocates early can be pinned
+  (`SRel.allocClosureLeftPinned`: content known, related to nothing through arbitrary related code) and later
+  matched with the closure the right allocates (`SRel.matchClosureRight`, `le_late`) — "moving an allocation".
+  Worked instance: `Rules/FunctionToAssignHeapV.lean` (`convert_function_to_assignment`, every program).
+* ready-made links (`HeapV/VSteps.lean`): `VkB.dropLocal` / `VkRep.dropLocal` / `VkB.addLocal` (initialisers
+  that only allocate: `AllocPureEs`, syntactic check `Expr.allocPureAll` + `allocPureAll_sound`),
+  `VkB.dropLocalFn` / `VkRep.dropLocalFn`, `VkE.ofEq` … (exact steps); generic leaves `VR.genS` … with the
+  exported compatibility lemmas `SoundE.bin`, `SoundS.localAssign`, … and `reflE` ….
+* `HooksExact.toV` — exactly sound hooks that introduce no new references are stage-4 hooks.
 * This development has no context (`Cx`): no watched globals, no up-to-timeout, no pins; those live in
   stage 3 (`VisitorSoundHeap.lean`), which renumbers cells only. Passes of the two kinds can be chained at
   the level of outcomes.
